@@ -288,15 +288,12 @@ def translate() -> tuple[str, dict]:
     # FileInfo.read / verify on symbolic values: where the bytes after start_data come from, per (arch_len zero?, arch_index None?)
     rd = c13_place.analyse_readers(finfo)
     side['readers'] = rd
+    # the two validations are *executed* (translate/c13_place.py mini_exec): `_check_arch_index` on None and on integers around the limits,
+    # the name validation of new_file on all triples of probe strings; the call sites of `_check_arch_index` are guarded by "is a directory VPK"
     idx_fn = [n for n in tree.body if isinstance(n, ast.FunctionDef) and n.name == '_check_arch_index']
-    idx_cmp = bool(idx_fn) and any(isinstance(n, ast.If) and ast.unparse(n.test) == 'arch_index is not None and (not 0 <= arch_index < DIR_ARCH_INDEX)'
-                                   for n in ast.walk(idx_fn[0]))
-    def guarded_idx(fn):
-        return any(isinstance(n, ast.If) and ast.unparse(n.test) in ('self.vpk._dir_prefix is not None', 'self._dir_prefix is not None')
-                   and [ast.unparse(s) for s in n.body] == ['_check_arch_index(arch_index)'] for n in fn.body)
-    chk_idx = idx_cmp and guarded_idx(fwrite) and guarded_idx(addf)
-    chk_name = any(isinstance(n, ast.If) and ast.unparse(n.test) == "'\\x00' in part or part == ' '" and isinstance(n.body[0], ast.Raise)
-                   for n in ast.walk(newf))
+    idx_cmp = bool(idx_fn) and c13_place.index_check_ok(idx_fn[0], consts)
+    chk_idx = idx_cmp and c13_place.index_check_guarded(fwrite, ('self.vpk',)) and c13_place.index_check_guarded(addf, ('self',))
+    chk_name = c13_place.name_check_ok(newf)
     max_pre = consts.get('MAX_PRELOAD')
     split_kind, split_sep, split_info = _split_site(tree)
 
